@@ -104,11 +104,21 @@ def run(ctx):
         '(set-logic QF_BV)\n(declare-const v (_ BitVec 8))\n(declare-const _v (_ BitVec 8))\n(declare-const __v (_ BitVec 4))\n(assert (= (bvadd v _v) ((_ zero_extend 4) __v)))\n(check-sat)\n',
         '(set-logic ALL)\n(declare-const s String)\n(define-fun s_prefix () String "p")\n(declare-const t String)\n(assert (str.contains s t))\n(assert (str.contains t s_prefix))\n(check-sat)\n',
     ]
+    extra_inputs.append('(set-logic ALL)\n(declare-const |the haystack| String)\n(declare-const |s(0)| String)\n(declare-const |b v| (_ BitVec 8))\n'
+                        '(assert (str.contains |the haystack| "x"))\n(assert (str.contains |s(0)| |the haystack|))\n(assert (= |b v| (bvadd |b v| #x01)))\n(check-sat)\n')
+    # fresh names that coincide with a declared FUNCTION (F33), a declared sort, a constructor or a selector
+    extra_inputs.append('(set-logic ALL)\n(declare-fun _v ((_ BitVec 1)) Bool)\n(declare-const v (_ BitVec 8))\n(declare-fun s_prefix (Int) String)\n(declare-const s String)\n'
+                        '(assert (_v ((_ extract 0 0) v)))\n(assert (str.contains s (s_prefix 1)))\n(check-sat)\n')
     import instances
     targeted = []
     for cls in instances.classes():
         for _ in range(6 if ctx.thorough else 2):
-            r = instances.make(rng, cls)
+            r = instances.make(rng, cls, exotic=rng.choice([0.0, 0.5]))      # half of them with quoted symbols that need their bars
+            if r is not None:
+                targeted.append(r[0])
+        if cls in ('IntroduceFreshVariable', 'BVReduceBW', 'StringContainsToConcat', 'SimplifySymbolNames', 'SimplifyQuotedSymbols', 'BVMergeReducedBW'):
+            # mutators that derive new symbols from existing ones: all symbols quoted and in need of their bars
+            r = instances.make(rng, cls, exotic=1.0)
             if r is not None:
                 targeted.append(r[0])
     for k in range(ninputs + len(targeted)):
@@ -117,7 +127,7 @@ def run(ctx):
         elif k >= ninputs:
             text = targeted[k - ninputs]
         else:
-            g, cmds = smtgen.gen_script(rng, nasserts=rng.choice([2, 3]), depth=rng.choice([2, 3]))
+            g, cmds = smtgen.gen_script(rng, nasserts=rng.choice([2, 3]), depth=rng.choice([2, 3]), exotic=rng.choice([0.0, 0.0, 0.4]))
             text = smtgen.script_text(cmds)
             if rng.random() < 0.3:
                 text += '(set-info :status sat)\n(assert true)\n(check-sat)\n'
